@@ -279,7 +279,7 @@ def classify(prop, viols, known):
 
 
 def write_violation(prop, n, case, viol, extra=None):
-    d = os.path.join(VERIF, "out", "violations", prop)
+    d = os.path.join(os.environ.get("XMC_OUT", os.path.join(VERIF, "out")), "violations", prop)
     os.makedirs(d, exist_ok=True)
     p = os.path.join(d, "%d.json" % n)
     with open(p, "w") as f:
@@ -310,7 +310,7 @@ def validate_evidence(ev):
 
 def write_evidence(ev):
     validate_evidence(ev)
-    d = os.path.join(VERIF, "evidence")
+    d = os.environ.get("XMC_EVIDENCE_DIR", os.path.join(VERIF, "evidence"))  # mutation runs write elsewhere
     os.makedirs(d, exist_ok=True)
     p = os.path.join(d, "%s.json" % ev["property_id"])
     tmp = p + ".tmp%d" % os.getpid()
@@ -408,5 +408,5 @@ def finish(prop, level, tier, seed, t0, cases, results, rule, assumptions, alpha
     p = write_evidence(ev)
     print("%s %s: cases=%d evaluations=%d distinct_nontrivial=%d states=%d transitions=%d new_violations=%d known=%d wall=%.1fs evidence=%s"
           % (prop, tier, len(cases), evals, len(nontriv), cov["states"], cov["transitions"], len(new), sum(len(v) for v in by.values()),
-             ev["wall_s"], os.path.relpath(p, VERIF)))
+             ev["wall_s"], p))
     return 1 if new else 0
